@@ -1,4 +1,4 @@
-(* C07 — what the kernel computes per ADMG, and the split of the 64 bidirected edge sets on 4 nodes into 4 shards *)
+(* C07 — what the kernel computes per ADMG, and the split of the 64 bidirected edge sets on 4 nodes into 16 shards *)
 From Coq Require Import List Arith Bool Lia.
 From PG Require Import Base.ListSet Graph.MGraph Graph.MSep C06.Model C06.Enum C07.Model C07.Enum.
 Import ListNotations.
@@ -7,4 +7,4 @@ Import ListNotations.
 Definition max_ok (g : mgraph) : bool :=
   Bool.eqb (is_maximal_model g) (spec_maximal g) && Bool.eqb (valid_mag_model g) (spec_valid_mag g).
 
-Definition bshard (k : nat) : list (list (nat * nat)) := firstn 16 (skipn (16 * k) (psublists (all_upairs 4))).
+Definition bshard (k : nat) : list (list (nat * nat)) := firstn 4 (skipn (4 * k) (psublists (all_upairs 4))).
